@@ -74,6 +74,32 @@ def headerExpectation (hops : List HOp) (ls : List Bytes) : Bool × Option Bytes
   let st := lastValue sStatus [] hops
   (ok, if st.isEmpty then none else some st)
 
+/-- raw modes: the property's expectation for the application's *own* header block, stated with the RFC field parser of
+`Spec` only (not with the model of `cgi_headers_parser`).  What the code guarantees: every line the application wrote is
+carried — for each field name (compared without regard to case) the client sees exactly the values the application wrote
+under that name, all of them, in the order written (repeated `Set-Cookie`/`Link`/`Vary` lines, empty values included);
+lines that are not `name: value` are passed on verbatim.  `Status` and `Content-Length` are assignments: the last one
+counts.  The *position* of a line in the block is not guaranteed (`Status`/`Content-Length` move to the front, the
+connection adds its own lines). -/
+def rawHeaderExpectation (rawHead : Bytes) (ls : List Bytes) : Bool × Option Bytes :=
+  let appLines := (Spec.lines rawHead).filter (!·.isEmpty)
+  let fields := appLines.filterMap Spec.parseField
+  let lstatus := Spec.lower sStatus
+  let lastNonEmpty (vs : List Bytes) : Option Bytes := match vs.getLast? with
+    | some v => if v.isEmpty then none else some v
+    | none => none
+  let names := (fields.map (·.1)).eraseDups
+  let okFields := names.all fun ln =>
+    if ln == lstatus then true
+    else if ln == Spec.sContentLength then
+      match lastNonEmpty (Spec.fieldValues ln appLines) with
+      | some v => Spec.fieldValues ln ls == [v]
+      | none => true
+    else Spec.fieldValues ln ls == Spec.fieldValues ln appLines
+  let plain := appLines.filter fun l => (Spec.parseField l).isNone
+  let okPlain := plain.all fun l => countLine ls l == countLine plain l
+  (okFields && okPlain, lastNonEmpty (Spec.fieldValues lstatus appLines))
+
 def judge (cs : Case) (wire : Bytes) (cache : Option Bytes) (gun : Option Bytes) (cacheHit : Bool) : String :=
   match deframe cs.proto wire with
   | none => "0:not-framed"
@@ -86,10 +112,8 @@ def judge (cs : Case) (wire : Bytes) (cache : Option Bytes) (gun : Option Bytes)
         match Spec.splitHead payload with
         | none => none
         | some (rawHead, rest) =>
-          -- raw modes: the application's own header block, as `cgi_headers_parser` reads it, every line exactly once
-          let h := ((Spec.lines rawHead).filter (!·.isEmpty)).foldl rawAddHeader ({} : Headers)
-          let hlines := (h.map.filter (fun kv => !ieq kv.1 sStatus)).map (fun kv => kv.1 ++ [58, 32] ++ kv.2) ++ h.added
-          some (rest, hlines.all (fun l => countLine ls l == countLine hlines l), (mapFind sStatus h.map).map (·.2))
+          let e := rawHeaderExpectation rawHead ls
+          some (rest, e.1, e.2)
       else
         let e := headerExpectation (appHeaderOps cs.script) ls
         some (payload, e.1, e.2)
